@@ -648,7 +648,7 @@ def admissible(p, h):
 # --------------------------------------------------------------------------
 REL_KINDS = ["die-grid", "die", "alloc", "stog", "netlist", "sat", "die-grid", "die", "legal", "alloc", "strop",
              "netlist", "stog", "sat", "die-grid", "defaults", "die", "netlist-simple", "die-grid-large",
-             "netlist-long"]
+             "netlist-long", "die-pattern-64", "alloc-pattern", "stog-pattern", "die-pattern"]
 
 
 # near-duplicates of a die are probed only while the grid of cut coordinates stays small: the cost of evaluating the
@@ -704,6 +704,14 @@ def gen_related_group(rng, kind):
         probes = [fam[0]] + rng.sample(fam[1:], min(3, len(fam) - 1))
         chosen = list(fam)
         chosen += [copy_of(m) for m in probes if rng.random() < 0.5]              # executed twice
+    elif "-pattern" in kind:
+        # ONE index pattern (occupancy matrix, regions / cells / rectangles by line numbers) over other coordinates
+        base = pow2(rng.choice([-6, -3, 0, 0, 0, 2, 5, 9]))
+        shape = rng.choice([sh for sh in rel.PATTERN_SHAPES if sh[0] * sh[1] >= 64]) if kind.endswith("-64") else None
+        fam = [strip(m) for m in rel.pattern_family(rng, base, kind.split("-")[0], shape)]
+        lead = fam[0]
+        probes = rng.sample(fam, min(4, len(fam)))
+        chosen = list(fam) + [copy_of(m) for m in probes if rng.random() < 0.3]
     else:
         pk = {"netlist-simple": "netlist", "netlist-long": "netlist"}.get(kind, kind)
         p, base = gen_probe(rng, kind=pk)
@@ -773,7 +781,7 @@ def gen_sat_ext_probe(rng):
                       "via": "ctor"})
     if rng.random() < 0.4:
         posts.append(c07.gen_post(rng, names))
-    return {"op": {"k": "sat", "posts": posts, "solve": rng.random() < 0.5, "ext": True}, "kind": "sat",
+    return {"op": {"k": "sat", "posts": posts, "solve": rng.random() < 0.5}, "kind": "sat",
             "stream": "logic", "variant": None, "dims": None, "note": "posts/ext", "cand": []}
 
 
@@ -1025,7 +1033,12 @@ def sat_check(case, raw):
            "codified": raw["codified"], "vtable": raw["vtable"], "status": raw["status"], "mem0": raw["mem0"]}
     if "ext" in raw:
         obs["extendable"], obs["users"] = raw["ext"], raw["users"]
-    if raw.get("big"):
+    import re as _re
+    ids = [int(i) for i in raw["codified"]] + [int(x) for n in raw["newmem"] for x in n[1:3]] + \
+        [int(m.group(1)) for c in raw["clauses"] for l in c for m in [_re.fullmatch(r"robdd_(\d+)", l[0])] if m]
+    if raw.get("big") or max(ids + [0]) > 2 * c20w.BIG_STORE:
+        # (node ids far beyond the reported store only appear on a tree whose store was emptied behind the manager's
+        # back; a nat literal of that size must not reach Coq)
         # a store of 10^4 .. 10^6 nodes is not handed to vm_compute: the model is run from the EMPTY store and only the
         # semantic part of c07_check is used - the posts accepted / refused and the set of user assignments that extend
         # (which by C07_post_exact does not depend on the store the posts started from)
@@ -1295,7 +1308,7 @@ def run(ctx, out, replay=None):
     quick = ctx.quick()
     _t("start")
     ngroups = 45 if quick else 620
-    nrelated = 36 if quick else 400
+    nrelated = 40 if quick else 432
     out.rule = ("(history, probe) pairs: probe = netlist load + verdict / orthogon recognition of a hard module / die "
                 "decomposition (with fixed rectangles of a netlist) / allocation + refine, griddify, uniform depth / "
                 "SAT posting sequence / legaliser Model construction / Strop / objects built from default arguments; "
@@ -1321,8 +1334,8 @@ def run(ctx, out, replay=None):
     import random
     brng = random.Random(ctx.rng.randrange(1 << 30))
     nbig = 0
-    for nodes in ([30000, (1 << 20) + 4096] if quick else
-                  [1500, 5000, 30000, 70000, 140000, 10 ** 6 + 4096, (1 << 20) + 4096, (1 << 21) + 4096]):
+    for nodes in ([400, 30000, (1 << 20) + 4096] if quick else
+                  [200, 400, 1500, 5000, 30000, 70000, 140000, 10 ** 6 + 4096, (1 << 20) + 4096, (1 << 21) + 4096]):
         g = gen_bigstore_group(brng, nodes)
         nbig += len(g)
         cases += g
